@@ -66,6 +66,11 @@ def oracle(ctx, n, ops, out):
             ctx.violation("after Pause() returned and the workers settled, not every worker is waiting (history %s, state %s)" % (ops[:i], a),
                           {"domain": "pause", "n": n, "ops": ops[:i], "impl": out[:i + 1]})
             return
+        if not stopped and o == "subscribe" and any(w != ("ack" if st["paused"] == "true" else "run") for w in st["workers"]):
+            ctx.violation("after a worker subscribed %s, not every worker %s (history %s, state %s)" % (
+                "while the pipeline is paused" if st["paused"] == "true" else "to a running pipeline", "waits" if st["paused"] == "true" else "runs", ops[:i], a),
+                {"domain": "pause", "n": n, "ops": ops[:i], "impl": out[:i + 1]})
+            return
         if not stopped and o == "resume" and (st["paused"] != "false" or any(w != "run" for w in st["workers"])):
             ctx.violation("after Resume() returned not every worker runs (history %s, state %s)" % (ops[:i], a),
                           {"domain": "pause", "n": n, "ops": ops[:i], "impl": out[:i + 1]})
@@ -259,9 +264,12 @@ def run(ctx):
     if ctx.thorough():
         hs += list(histories(7, [0, 1, 2, 3]))
         hs += [(r.choice([1, 2, 4, 8]), [r.choice(["pause", "resume", "pause", "resume", "stop"]) for _ in range(20)]) for _ in range(2000)]
+        hs += [(r.choice([0, 1, 2, 4]), [r.choice(["pause", "resume", "pause", "resume", "subscribe", "subscribe", "stop"]) for _ in range(16)]) for _ in range(1000)]
     else:
         hs += list(histories(5, [0, 1, 2, 3]))
         hs += [(r.choice([1, 2, 4]), [r.choice(["pause", "resume"]) for _ in range(12)]) for _ in range(60)]
+        hs += [(0, ["pause", "subscribe", "resume"]), (1, ["pause", "subscribe", "subscribe", "resume", "pause", "resume"]), (2, ["subscribe", "pause", "resume"])]
+        hs += [(r.choice([0, 1, 2]), [r.choice(["pause", "resume", "subscribe"]) for _ in range(10)]) for _ in range(40)]
     run_hists(ctx, hs)
     busy_histories(ctx, 400 if ctx.thorough() else 30)
     scenarios(ctx, 60 if ctx.thorough() else 10)
